@@ -238,18 +238,18 @@ pub fn run_expr(out: &mut Out, thorough: bool, rng: &mut Rng) {
         emit_tree(out, &format!("{}#{}x", body, cs));
         emit_tree(out, &format!("{}#{}#{}", body, cs, impl_checksum(&format!("{}#{}", body, cs))));
     }
-    // nesting around the limit (402)
+    // nesting around the limit (MAX_RECURSION_DEPTH + 1 = 403 since /repo 4d088e26)
     for &(o, c) in &[('(', ')'), ('{', '}')] {
-        for d in [1usize, 2, 127, 128, 129, 400, 401, 402, 403, 404, 500, 1000, 10_000] {
+        for d in [1usize, 2, 127, 128, 129, 400, 401, 402, 403, 404, 405, 500, 1000, 10_000] {
             for leaf in ["x", ""] {
                 emit_tree(out, &nest(o, c, d, leaf));
             }
-            // the depth limit itself: well-formed nesting is accepted iff depth <= 402
+            // the depth limit itself: well-formed nesting is accepted iff depth <= 403
             let (v, _) = verdict_only(&nest(o, c, d, "x"));
             out.line(&format!("J depthlimit {} {} {}", if o == '(' { "round" } else { "curly" }, d, v), "ok");
         }
         // unbalanced deep strings
-        for d in [401usize, 402, 403, 5000] {
+        for d in [401usize, 402, 403, 404, 5000] {
             let full = nest(o, c, d, "x");
             emit_tree(out, &full[..full.len() - 1]); // one closer missing
             emit_tree(out, &format!("{}{}", full, c)); // one closer too many
@@ -258,19 +258,19 @@ pub fn run_expr(out: &mut Out, thorough: bool, rng: &mut Rng) {
         }
     }
     // alternating brace kinds at depth, mismatches at depth
-    {
+    for lim in [402usize, 403, 404] {
         let mut s = String::new();
-        for i in 0..402 {
+        for i in 0..lim {
             s.push('a');
             s.push(if i % 2 == 0 { '(' } else { '{' });
         }
         let opened = s.clone();
-        for i in (0..402).rev() {
+        for i in (0..lim).rev() {
             s.push(if i % 2 == 0 { ')' } else { '}' });
         }
         emit_tree(out, &s);
         let mut bad = opened.clone();
-        for _ in 0..402 {
+        for _ in 0..lim {
             bad.push(')');
         }
         emit_tree(out, &bad);
@@ -292,11 +292,8 @@ pub fn run_expr(out: &mut Out, thorough: bool, rng: &mut Rng) {
         ("commas-1000000".into(), format!("a({})", ",".repeat(1_000_000))),
         ("wide-500000".into(), format!("a({})", vec!["b(c)"; 500_000].join(","))),
         ("name-2000000".into(), "n".repeat(2_000_000)),
-        ("deep-402-wide".into(), {
-            let mut s = nest('(', ')', 401, &vec!["x"; 100_000].join(","));
-            s.push_str("");
-            s
-        }),
+        ("deep-403-wide".into(), nest('(', ')', 402, &format!("w({})", vec!["x"; 100_000].join(",")))),
+        ("deep-404-wide".into(), nest('(', ')', 403, &format!("w({})", vec!["x"; 100_000].join(",")))),
     ];
     let mut max_ms = 0u128;
     for (desc, s) in &big {
@@ -392,7 +389,7 @@ pub fn run_expr(out: &mut Out, thorough: bool, rng: &mut Rng) {
     }
     out.note(
         "domain_expr",
-        "expression parser: repo unit-test strings; nesting depth 1..10000 (limit 402) with both brace kinds; width to 20000; all strings of length <= 5 over a(){},; random valid trees and their mutations (delete/insert/replace/swap/truncate, non-ASCII); checksummed trees; 1 MB inputs (verdict only); parse_num 0..1100, u32 boundary, junk".into(),
+        "expression parser: repo unit-test strings; nesting depth 1..10000 (limit 403 = MAX_RECURSION_DEPTH + 1) with both brace kinds; width to 20000; all strings of length <= 5 over a(){},; random valid trees and their mutations (delete/insert/replace/swap/truncate, non-ASCII); checksummed trees; 1 MB inputs (verdict only); parse_num 0..1100, u32 boundary, junk".into(),
     );
 }
 
